@@ -833,6 +833,47 @@ fn clustered(sink: &mut Sink, rng: &mut Rng, shard: (u64, u64)) {
     }
 }
 
+/// One call that has to evict a *long* run of entries (15 … 65): a growing `mutate` of the LRU / a middle / the MRU
+/// entry, an `insert` of a new or a present key, `set_max_size` — each sized so that exactly `k` entries must go.
+fn big_evict(sink: &mut Sink, _rng: &mut Rng, shard: (u64, u64)) {
+    let ovh = sink.ovh;
+    let mut idx = 0u64;
+    for n in [20usize, 36, 70] {
+        for k in [15usize, 16, 17, 18, 31, 32, 33, 65] {
+            if k + 2 > n {
+                continue;
+            }
+            for mode in 0..6 {
+                idx += 1;
+                if idx % shard.1 != shard.0 {
+                    continue;
+                }
+                let hk = [HKind::Mix, HKind::Ident, HKind::Const][(idx % 3) as usize];
+                let mut w = sink.begin_seq(hk, "bigevict");
+                // entry i has size ovh + i; the limit holds all of them exactly
+                let total: usize = (0..n).map(|i| ovh + i).sum();
+                setup_entries(sink, &mut w, n, total, None);
+                let snap = w.snap(0).cloned().unwrap_or_default();
+                // size of the k oldest entries other than `skip`
+                let run = |skip: Option<u32>| -> usize { snap.ord.iter().filter(|e| Some(e.k.id) != skip).take(k).map(|e| e.esize).sum() };
+                let kt = types::peek_next_tok();
+                let op = match mode {
+                    0 => OpKind::MutSet { id: 0, h: run(Some(0)) },                                  // the LRU entry grows
+                    1 => OpKind::MutSet { id: (n / 2) as u32, h: (n / 2) + run(Some((n / 2) as u32)) }, // a middle entry grows
+                    2 => OpKind::MutSet { id: (n - 1) as u32, h: (n - 1) + run(None) - 1 },          // the MRU entry grows, one byte less
+                    3 => OpKind::Ins { id: 1000, kh: 0, kt, vh: run(None) - ovh, vt: kt + 1 },       // a new key
+                    4 => OpKind::Ins { id: (n - 1) as u32, kh: 0, kt, vh: (n - 1) + run(None), vt: kt + 1 }, // a present key
+                    _ => OpKind::SetMax(total - run(None)),
+                };
+                sink.step(&mut w, &gen::mk_line(true, Op::On { c: 0, op }));
+                sink.step(&mut w, &gen::mk_line(true, Op::On { c: 0, op: OpKind::GetLru }));
+                sink.step(&mut w, &gen::mk_line(true, Op::On { c: 0, op: OpKind::It { kind: IterKind::Keys, calls: vec![true, false], forget: false, unwind: false } }));
+                sink.end_seq(w);
+            }
+        }
+    }
+}
+
 /// Replacing an entry that sits deep in a probe sequence (every key collides, or clusters) with one so large
 /// that all other entries are evicted by the same call — then the map must still find it. Also: removing
 /// everything but one deep entry, then re-inserting / looking up.
@@ -1149,6 +1190,7 @@ fn main() {
         "tomb" => tombstones(&mut sink, &mut rng, shard),
         "cluster" => clustered(&mut sink, &mut rng, shard),
         "deepreplace" => deep_replace(&mut sink, &mut rng, shard),
+        "bigevict" => big_evict(&mut sink, &mut rng, shard),
         "panicx" => panic_systematic(&mut sink, &mut rng, shard, get("--rounds").and_then(|s| s.parse().ok()).unwrap_or(1)),
         "exh" => exhaustive(&mut sink, depth, shard),
         name => {
